@@ -13,6 +13,8 @@ pub fn obs(branch: usize, p: Parser<'_>, input: &str) -> Obs {
     let _ = input;
     (branch, p.start_offset(), p.end_offset(), r.to_string())
 }
+/// what a branch expression sees when it reads the parser (round 15: a strip form that ran its branch before advancing)
+pub fn snap(p: Parser<'_>, base: usize) -> String { format!("{}..{} {:?}", p.start_offset() - base, p.end_offset() - base, p.remainder()) }
 pub fn addr_ok(p: Parser<'_>, input: &str, base: usize) -> bool {
     let r = p.remainder();
     if r.is_empty() { return p.start_offset() >= base && p.end_offset() == p.start_offset() && p.end_offset() - base <= input.len(); }
@@ -116,11 +118,12 @@ def program(name, method, branches, maxn):
     lits = [l for b in branches for l in b]
     if method.startswith("trim"):
         pat = " | ".join(lits)
-        kcall = f"konst::parser_method!{{parser, {method}; {pat} }} let b = 0usize;"
+        kcall = f"konst::parser_method!{{parser, {method}; {pat} }} let b = 0usize; let seen = snap(parser, base);"
         refcall = f"ref_{'trim_start' if method == 'trim_start_matches' else 'trim_end'}(rem, &[{', '.join(lits)}])"
     else:
-        arms = " ".join(f"{' | '.join(b)} => {i}," for i, b in enumerate(branches))
-        kcall = f"let b: usize = konst::parser_method!{{parser, {method}; {arms} _ => 99 }};"
+        # every branch (and the default) reads the parser itself: it must already see the advanced (default: unchanged) parser
+        arms = " ".join(f"{' | '.join(b)} => {{ seen = snap(parser, base); {i} }}," for i, b in enumerate(branches))
+        kcall = f"let mut seen = String::new(); let b: usize = konst::parser_method!{{parser, {method}; {arms} _ => {{ seen = snap(parser, base); 99 }} }};"
         alts = ", ".join("&[" + ", ".join(b) + "]" for b in branches)
         refcall = f"ref_{method}(rem, &[{alts}])"
     body = [
@@ -131,9 +134,9 @@ def program(name, method, branches, maxn):
         "        let mk = || { let p = if base == 0 { Parser::new(input) } else { Parser::with_start_offset(input, base) }; if skip == 1 { p.skip(1).skip_back(1) } else { p } };",
         "        let pre = mk();",
         "        let (lo0, rem) = (pre.start_offset() - base, pre.remainder());",
-        "        let k = cu(|| { let mut parser = mk(); " + kcall + " let ok = addr_ok(parser, input, base); format!(\"branch={} start={} end={} rem={:?} located={}\", b, parser.start_offset() - base, parser.end_offset() - base, parser.remainder(), ok) });",
+        "        let k = cu(|| { let mut parser = mk(); " + kcall + " let ok = addr_ok(parser, input, base); format!(\"branch={} start={} end={} rem={:?} located={} parser-seen-by-branch={}\", b, parser.start_offset() - base, parser.end_offset() - base, parser.remainder(), ok, seen) });",
         f"        let (rb, rlo, rhi) = {refcall};",
-        "        let s = format!(\"branch={} start={} end={} rem={:?} located=true\", rb, lo0 + rlo, lo0 + rhi, &rem[rlo..rhi]);",
+        "        let s = format!(\"branch={} start={} end={} rem={:?} located=true parser-seen-by-branch={}..{} {:?}\", rb, lo0 + rlo, lo0 + rhi, &rem[rlo..rhi], lo0 + rlo, lo0 + rhi, &rem[rlo..rhi]);",
         f"        out.push((format!(\"{{}} on {{:?}} (base {{}}, pre-skip {{}})\", {js(name)}, input, base, skip), k, s));",
         "    }",
         "}",
@@ -196,7 +199,7 @@ def run(tier, seed, drv):
     rep["traces"] = evals
     rep["evaluations"] = evals
     rep["distinct_nontrivial"] = nontriv
-    rep["rule"] = "program = parser_method! with one method and a list of literal alternatives/branches; the same literal tokens are used as &str expressions in the reference (rustc decodes them); executed on every input of <= k atoms over the program's own literals plus a foreign char, from Parser::new, with_start_offset(_,7) and a pre-skipped parser; compared: branch taken, start_offset, end_offset, remainder (content and address); reference: strip = first listed literal that is a prefix/suffix, find = earliest start (rfind: latest end) over all alternatives with ties to the first listed, trim = repeat first listed matching alternative until none or an empty one matches, default branch = parser unchanged; non-trivial = programs with more than two distinct outcomes"
+    rep["rule"] = "program = parser_method! with one method and a list of literal alternatives/branches; the same literal tokens are used as &str expressions in the reference (rustc decodes them); executed on every input of <= k atoms over the program's own literals plus a foreign char, from Parser::new, with_start_offset(_,7) and a pre-skipped parser; compared: branch taken, start_offset, end_offset, remainder (content and address), and the same three as read by the branch expression itself (a branch runs with the already-advanced parser, the default with the unchanged one); reference: strip = first listed literal that is a prefix/suffix, find = earliest start (rfind: latest end) over all alternatives with ties to the first listed, trim = repeat first listed matching alternative until none or an empty one matches, default branch = parser unchanged; non-trivial = programs with more than two distinct outcomes"
     rep["bounds"] = f"{len(single_literals())} single literals (every escape alone, embedded and in pairs, line continuations followed by spaces/tabs/newlines/non-ASCII spaces, raw strings with 0-2 hashes, multi-byte text, empty, concat!) x 6 methods; {len(branch_sets())} multi-branch sets over [a, ab, b, \"\", ñ, ñb, aa, ba] x 6 methods; inputs <= {dict(quick=3, thorough=4)[tier]} atoms"
     rep["samples"] = [names[0], names[len(names) // 3], names[len(names) // 2], names[len(names) - 1]]
     rep["extra"] = {"programs": len(allp), "rejected_by_rustc": len(rejected), "disagreements_checked": len(viol)}
